@@ -596,26 +596,6 @@ REFACTORS = [
         let record = MultiPlexedRecord::DeleteQueue { queue, position };''', '''        let position = self.in_mem_queues.next_position(queue)?;
         debug!(position = position, "deleting queue at position");
         let record = MultiPlexedRecord::DeleteQueue { queue, position };''')]),
-    dict(name='truncate_mem_before_log', desc='truncate: swap the in-memory update and the WAL write (fault-free equivalent)',
-         edits=[(MRL, '''        let mut num_bytes_written =
-            self.record_log_writer
-                .write_record(MultiPlexedRecord::Truncate {
-                    truncate_range,
-                    queue,
-                })?;
-        let evicted_records = self
-            .in_mem_queues
-            .truncate(queue, truncate_range)
-            .unwrap_or(0);''', '''        let evicted_records = self
-            .in_mem_queues
-            .truncate(queue, truncate_range)
-            .unwrap_or(0);
-        let mut num_bytes_written =
-            self.record_log_writer
-                .write_record(MultiPlexedRecord::Truncate {
-                    truncate_range,
-                    queue,
-                })?;''')]),
     dict(name='inline_queue_exists', desc='create_queue/truncate call in_mem_queues.contains_queue directly',
          edits=[(MRL, '        if self.queue_exists(queue) {\n            return Err(CreateQueueError::AlreadyExists);', '        if self.in_mem_queues.contains_queue(queue) {\n            return Err(CreateQueueError::AlreadyExists);'),
                 (MRL, '        if !self.queue_exists(queue) {\n            return Err(TruncateError::MissingQueue', '        if !self.in_mem_queues.contains_queue(queue) {\n            return Err(TruncateError::MissingQueue')]),
@@ -1537,4 +1517,28 @@ MUTANTS += [
          edits=[(RB, '    pub fn len(&self) -> usize {\n        self.buffer.len()\n    }', '    pub fn len(&self) -> usize {\n        self.buffer.len() + self.buffer.capacity() / 1024\n    }')]),
     dict(name='undecodable_header_not_quarantined', props=['C08'], rules=['FR3'], desc='an undecodable header no longer sets block_corrupted',
          edits=[(FRD, '            None => {\n                self.block_corrupted = true;\n                Err(ReadFrameError::Corruption)', '            None => {\n                self.cursor += HEADER_LEN;\n                Err(ReadFrameError::Corruption)')]),
+]
+
+# ---- re-classified after seeded round 9 (DESIGN 12, round 9): was listed among the refactors
+MUTANTS += [
+    dict(name='truncate_mem_before_log', props=['C02', 'C01', 'C04'], rules=['LOG1'], desc='truncate: the in-memory update moved before the WAL write. Kept as a REFACTOR ("fault-free equivalent") until seeded change r9_C02_B demonstrated the difference: when the write fails (a roll-over that cannot create its file) the call returns Err with records already evicted and pins released, the next GC unlinks the file, a restart has lost records no successful call removed',
+         edits=[(MRL, '''        let mut num_bytes_written =
+            self.record_log_writer
+                .write_record(MultiPlexedRecord::Truncate {
+                    truncate_range,
+                    queue,
+                })?;
+        let evicted_records = self
+            .in_mem_queues
+            .truncate(queue, truncate_range)
+            .unwrap_or(0);''', '''        let evicted_records = self
+            .in_mem_queues
+            .truncate(queue, truncate_range)
+            .unwrap_or(0);
+        let mut num_bytes_written =
+            self.record_log_writer
+                .write_record(MultiPlexedRecord::Truncate {
+                    truncate_range,
+                    queue,
+                })?;''')]),
 ]
